@@ -85,4 +85,18 @@ def relayOutOf (code : Nat → Relay.Cls → Nat) : Relay.Result → Edge.RelayO
 def proxyHop (code : Nat → Relay.Cls → Nat) (cfg : Relay.Cfg) (s : Relay.Script) : Option (List Edge.Res) :=
   some (Edge.proxyEnqueue (relayOutOf code (Relay.attempt cfg s)))
 
+/-! ## The HTTP hop: HttpRelay on the sending host, WsgiEdge + Queue on the receiving one
+
+`WsgiEdge._enqueue_envelope` answers with `_build_http_response(reply)`: the status and an `X-Smtp-Reply` header carrying the code;
+when `enqueue` raises, the edge's own exception handler answers a bare 500. `HttpRelayClient._process_response`
+(Model/Relay.lean `httpAttempt`) classifies what it gets. -/
+
+def wsgiResponse (r : Option (List Edge.Res)) : Relay.HttpOut :=
+  match r with
+  | some l => .response (Edge.wsgiStatus l) (some (Edge.smtpReply l))
+  | none => .response 500 none
+
+/-- What the HTTP relay reports for a message of `n` recipients when the storage of the receiving queue behaves as `ws`. -/
+def httpHop (n : Nat) (ws : List Edge.Write) : Relay.Result := Relay.httpAttempt n (wsgiResponse (Edge.enqueue ws))
+
 end Slimta.Ingress
